@@ -66,6 +66,9 @@ func (g *c19GenState) newRes() {
 	kinds := []c19ResID{{"ex.org/v1", "Thing", ""}, {"ex.org/v1", "Thing", ""}, {"ex.org/v1", "Thing", ""}, {"ex.org/v1", "Other", ""}, {"other.io/v1", "Thing", ""}, {"v1", "Node", ""}}
 	id := Pick(g.r, kinds)
 	id.Name = Pick(g.r, []string{"r0", "r1", "r2", "r0"})
+	if g.r.Chance(1, 80) {
+		id.Name = "" // malformed: rejected by the API server
+	}
 	g.add(c19Step{Op: "cr", AV: id.AV, Kind: id.Kind, Name: id.Name, Labels: g.labels(), InUse: g.r.Chance(1, 10), Ctrl: g.ctrl()})
 	for _, x := range g.res {
 		if x == id {
@@ -123,6 +126,15 @@ func (g *c19GenState) newUsage() {
 		name = Pick(g.r, g.usages) // re-create under an old name
 	}
 	st := c19Step{Op: "cu", Name: name, Of: g.rspec(g.pickRes(), true), Composed: g.r.Chance(3, 10), Ctrl: g.ctrl()}
+	// malformed stream: no spec.of at all, empty object name
+	if g.r.Chance(1, 60) {
+		st.Of = nil
+	}
+	if g.r.Chance(1, 80) {
+		st.Name = ""
+		g.add(st)
+		return
+	}
 	if g.r.Chance(3, 5) {
 		st.By = g.rspec(g.pickRes(), false)
 		g.feat["by"] = true
@@ -450,7 +462,14 @@ func c19Class(scn c19Scn, obs c19Obs, fam string) string {
 	ofs := map[string]int{}
 	for _, s := range scn.Steps {
 		switch s.Op {
+		case "cr":
+			if s.Name == "" {
+				f["bad"] = true
+			}
 		case "cu":
+			if s.Of == nil || s.Name == "" || strings.Count(s.Of.AV, "/") > 1 || (s.Of.Name == "" && s.Of.Sel == nil) {
+				f["bad"] = true
+			}
 			if s.Of != nil {
 				if s.Of.Name == "" {
 					f["sel"] = true
@@ -469,6 +488,12 @@ func c19Class(scn c19Scn, obs c19Obs, fam string) string {
 		case "dr":
 			if !strings.HasSuffix(s.AV, "/v1") && s.AV != "v1" {
 				f["ver"] = true
+			}
+			if s.Policy != "" {
+				f["pol"] = true
+			}
+			if len(s.WO) > 0 {
+				f["hkf"] = true
 			}
 		case "step":
 			if s.O != "ok" {
